@@ -21,7 +21,7 @@ FAC = {"AUTH": syslog.LOG_AUTH, "AUTHPRIV": 10 << 3, "CRON": syslog.LOG_CRON, "D
        "NEWS": syslog.LOG_NEWS, "SYSLOG": syslog.LOG_SYSLOG, "USER": syslog.LOG_USER, "UUCP": syslog.LOG_UUCP}
 LVL = {"EMERG": 0, "ALERT": 1, "CRIT": 2, "ERR": 3, "WARNING": 4, "NOTICE": 5, "INFO": 6, "DEBUG": 7}
 KIND = {"file": 0, "devtty": 1, "devnull": 2, "stdout": 3, "stderr": 4, "socket": 5, "devlog": 6, "noop": 7}
-SINKS = ["sink\tfile\tout\t@D@/out.log", "sink\tfile\tout2\t@D@/out-T.log", "sink\tpipe\tso\t1", "sink\tpipe\tse\t2",
+SINKS = ["sink\tfile\tout\t@D@/out.log", "sink\tfile\tout2\t@D@/out-T.log", "sink\tfile\tout3\t@D@/out-%{snoopy_literal:T}.log", "sink\tpipe\tso\t1", "sink\tpipe\tse\t2",
          "sink\tdgram\tsock\t@D@/s.sock", "sink\tdevlog\tdevlog\t@D@/devlog.sock", "sink\ttty\ttty"]
 
 
@@ -75,11 +75,17 @@ def gen_procs(rng, tier):
     # one name in two registries within one call: filter `noop` then data source `noop`; output `noop` with data source `noop`
     procs.append(dict(base, out="file", arg=b"@D@/out.log", chain=b"noop;only_uid:0", fmt=b"<%{noop}>%{cmdline}<%{noop}>", calls=small(3)))
     procs.append(dict(base, out="noop", chain=b"noop", fmt=b"<%{noop}>%{cmdline}", calls=small(2)))
+    # the path template has its own limits (PATH_MAX), not the message's: a 300-byte data-source value in the path under a 255-byte data-source limit
+    procs.append(dict(base, out="file", arg=b"@D@/%{snoopy_literal:" + b"./" * 150 + b"}out.log", dsmax=255, calls=small(3)))
+    # a data-source value that itself looks like a tag is inserted into the path verbatim (one expansion, not two)
+    procs.append(dict(base, out="file", arg=b"@D@/out-%{env:PT}.log", env=[b"PATH=/bin", b"PT=%{snoopy_literal:T}"], calls=small(3)))
+    # real uid differs from the effective uid (set-uid program started by an ordinary user): the output acts with the effective uid
+    procs.append(dict(base, out="file", arg=b"@D@/out.log", calls=small(4), pre={0: ["ruid\t65534"]}))
     return procs
 
 
 def ini_of(p):
-    lines = [b"[snoopy]", b"message_format = \"" + p["fmt"] + b"\"", b"datasource_message_max_length = 1048575", b"log_message_max_length = %d" % p["llog"],
+    lines = [b"[snoopy]", b"message_format = \"" + p["fmt"] + b"\"", b"datasource_message_max_length = %d" % p.get("dsmax", 1048575), b"log_message_max_length = %d" % p["llog"],
              b"error_logging = " + (b"yes" if p["el"] else b"no")]
     lines.append(b"output = " + p["out"].encode() + (b":" + p["arg"] if p["arg"] else b""))
     lines.append(b"syslog_facility = " + p["fac"].encode())
@@ -136,7 +142,7 @@ def check(run):
             return (i, script, run_script(run, lib, script, "c04-%d" % i, timeout=120))
         # some processes run with descriptor 0 closed: the output's own open()/socket() then returns 0
         sinks = [l.replace("sink\tpipe\t", "sink\tsockpair\t") for l in SINKS] if p.get("std_socket") else list(SINKS)
-        script = (["minpid\t10000"] if p["out"] == "devlog" else []) + sinks + (["stdin\tclosed"] if p.get("stdin_closed") else []) + ["ini\t" + hexs(ini_of(p)), "env\t" + hexlist([b"PATH=/bin"])]
+        script = (["minpid\t10000"] if p["out"] == "devlog" else []) + sinks + (["stdin\tclosed"] if p.get("stdin_closed") else []) + ["ini\t" + hexs(ini_of(p)), "env\t" + hexlist(p.get("env", [b"PATH=/bin"]))]
         for kk, (api, path, argv) in enumerate(p["calls"]):
             script += p.get("pre", {}).get(kk, [])
             script.append(call_line(api, path, argv, [] if api == "execve" else None, 0, -1, 2))
@@ -150,10 +156,10 @@ def check(run):
     gen_cases, index = [], []
     for i, p in enumerate(procs):
         for k, (api, path, argv) in enumerate(p["calls"]):
-            base = [hexs(path), hexlist(argv), hexlist([b"PATH=/bin"])]
+            base = [hexs(path), hexlist(argv), hexlist(p.get("env", [b"PATH=/bin"]))]
             tmpl = {"devtty": bytes.fromhex(oc_js["devtty_path"]), "devnull": bytes.fromhex(oc_js["devnull_path"])}.get(p["out"], p["arg"].replace(b"@D@", b"/D"))
             for kind in ("gen", "generr"):
-                gen_cases.append("\t".join([kind, str(p["llog"] + la), str(1048575 + da), hexs(p["fmt"])] + base))
+                gen_cases.append("\t".join([kind, str(p["llog"] + la), str(p.get("dsmax", 1048575) + da), hexs(p["fmt"])] + base))
                 gen_cases.append("\t".join([kind, str(consts["ident_buf"]), str(consts["ident_buf"]), hexs(p["ident"])] + base))
                 gen_cases.append("\t".join([kind, str(consts["path_buf"]), str(consts["path_buf"]), hexs(tmpl)] + base))
             index.append((i, k))
@@ -181,7 +187,7 @@ def check(run):
     pr = run.run_model("output", pp, pp + ".out")
     # ---- compare
     ncmp, distinct, n_errrec = 0, set(), 0
-    sinkmap = {("0", b"/D/out.log"): "out", ("0", b"/D/out-T.log"): "out2", ("0", b"/dev/tty"): "tty", ("0", b"/dev/null"): None,
+    sinkmap = {("0", b"/D/out.log"): "out", ("0", b"/D/out-T.log"): "out2", ("0", b"/D/out-%{snoopy_literal:T}.log"): "out3", ("0", b"/dev/tty"): "tty", ("0", b"/dev/null"): None,
                ("1", b"1"): "so", ("1", b"2"): "se", ("2", b"/D/s.sock"): "sock", ("2", b"/dev/log"): "devlog"}
     for n, (i, k) in enumerate(pred_idx):
         p = procs[i]
@@ -198,13 +204,15 @@ def check(run):
         for j in range(nrec):
             tag, name, data = f[2 + 3 * j], f[3 + 3 * j], f[4 + 3 * j]
             nm = bytes.fromhex(name) if name != "-" else b""
+            if tag == "0" and b"/./" in nm:
+                nm = os.path.normpath(nm.decode("latin-1")).encode("latin-1")      # the kernel resolves "./" components: same file
             key = sinkmap.get((tag, nm), "?")
             if key == "?" and p.get("exact_len") and tag == "2" and nm == p["arg"]:
                 key = "sockx"
             if key is None:
                 continue          # /dev/null: unobservable by construction; "nothing anywhere else" is still checked
             expected.setdefault(key, []).append(data if data != "-" else "")
-        for nm in ("out", "out2", "so", "se", "tty"):          # byte-stream sinks: several records arrive as one stream
+        for nm in ("out", "out2", "out3", "so", "se", "tty"):          # byte-stream sinks: several records arrive as one stream
             if nm in expected:
                 expected[nm] = ["".join(expected[nm])]
         pcs = per_call(r["records"])
@@ -215,7 +223,7 @@ def check(run):
             if hx not in ("-", "~"):
                 got.setdefault(nm, []).append(hx)
         # byte-stream sinks: concatenate
-        for nm in ("out", "out2", "so", "se", "tty"):
+        for nm in ("out", "out2", "out3", "so", "se", "tty"):
             if nm in got:
                 got[nm] = ["".join(got[nm])]
         late = [(nm, hx[:80]) for ph in (("after", "after-flush") if not last else ()) for (nm, hx) in c["sinks"].get(ph, []) if hx not in ("-", "~")]
